@@ -482,6 +482,18 @@ func extraCases(r *lib.Rng, thorough bool) {
 		}
 		olds = append(olds, lsnSession(r, 2), lsnSession(r, 1))
 	}
+	// an idle server: more than the validity of a key (72 h) passes without anybody asking
+	// the provider; then a key exchange with the real NTS-KE server (the first call of
+	// Current() after the gap), whose cookies must open, and requests built from them and
+	// from freshly issued cookies, which must be answered
+	theProvider.VerifAge(80 * time.Hour)
+	realKEn(r, ls[0], 1, ",idle80h")
+	for _, l := range ls {
+		if !l.lost {
+			s := lsnSession(r, 1)
+			l.honestAndFollowUp(r, "nt,honest,complete,idle80h", s, lsnRequest(r, s), nil, false)
+		}
+	}
 }
 
 func (l *lsn) round(r *lib.Rng, thorough bool, olds []*session, deep bool) {
@@ -628,9 +640,10 @@ func (l *lsn) round(r *lib.Rng, thorough bool, olds []*session, deep bool) {
 // cookies the server issues are opened with the harness's own code and the
 // provider's key: they must hold the client's exported keys by direction; the
 // first request built from them must be answered by the listener.
-func realKE(r *lib.Rng, l *lsn) {
+func realKE(r *lib.Rng, l *lsn) { realKEn(r, l, 3, "") }
+
+func realKEn(r *lib.Rng, l *lsn, n int, tag string) {
 	quiet := slog.New(quietHandler{})
-	n := 3
 	for i := 0; i < n; i++ {
 		var f ntske.Fetcher
 		f.Log = quiet
@@ -661,12 +674,12 @@ func realKE(r *lib.Rng, l *lsn) {
 				obs = append(obs, lib.L("0", lib.I(int64(c.algo)), lib.B(c.s2c), lib.B(c.c2s)))
 			}
 		}
-		w.Case("ke.real", "nt,honest,complete,realke",
+		w.Case("ke.real", "nt,honest,complete,realke"+tag,
 			lib.V(lib.B(data.C2sKey), lib.B(data.S2cKey), BL(all), keys, tab(ents...)),
 			lib.V(lib.I(int64(data.Algo)), lib.Bool(data.Server == lsnIP().String() && int(data.Port) == lsnPort), lib.L(obs...)))
 		s := &session{c2s: data.C2sKey, s2c: data.S2cKey, algo: data.Algo, pool: all}
 		q := lsnRequest(r, s)
-		l.honestAndFollowUp(r, "nt,honest,complete,realke", s, q, nil, false)
+		l.honestAndFollowUp(r, "nt,honest,complete,realke"+tag, s, q, nil, false)
 	}
 }
 
